@@ -529,7 +529,7 @@ Theorem save_layout s tr s' tr' :
   (exists xpos aw bw data xd xs,
      write_stream (refs s') (lenN (refs s')) = Ok (aw, bw, data) /\
      nthN (refs s') (lenN (refs s1)) = Some (XRaw xpos 0) /\
-     ser (PStream xd (SPending data)) = Ok xs /\
+     ser (PStreamData xd data) = Ok xs /\
      (exists pre, backend s' = pre ++ obj_header (lenN (refs s1)) 0 ++ xs ++ kw_endobj_nl ++ startxref_tail xpos /\
                   lenN pre = start s + xpos)) /\
   start s' = start s /\ cache s' = [].
